@@ -109,7 +109,12 @@ def strategy(tier):
         'aio': st.booleans(),
         'msgs': st.lists(msg, min_size=2, max_size=30 if tier == 'thorough'
                          else 14),
-        'faults': st.lists(fault, max_size=3)})
+        'faults': st.lists(fault, max_size=3),
+        # a third local client, to which this host has never emitted with a
+        # callback: an acknowledgement addressed to this host names it
+        # (a late or duplicated one), and at the end another host emits to
+        # it with a callback of its own
+        'stray_first': st.booleans()})
 
 
 def check_case(case):
@@ -140,6 +145,10 @@ def _run(case, cl):
     b = cl.connect(0, '/')
     A, B = cl.clients[a], cl.clients[b]
     table = {'§A§': A['sid'], '§B§': B['sid']}
+    C = None
+    if case.get('stray_first'):
+        c3 = cl.connect(0, '/')
+        C = cl.clients[c3]
 
     def mk_cb(name):
         if aio:
@@ -245,6 +254,10 @@ def _run(case, cl):
     listen_faults = []
     plan = []            # (bus index, msg) for bookkeeping
     faults = [dict(f) for f in case['faults'] if f]
+    if C is not None:
+        cl.bus.append((0, pickle.dumps({
+            'method': 'callback', 'host_id': own, 'sid': C['sid'],
+            'namespace': '/', 'id': 7, 'args': ['late']})))
     # a fault of an application callback / disconnect handler is aimed at
     # the first message that makes the listener invoke it (a random position
     # almost never is one)
@@ -356,6 +369,11 @@ def _run(case, cl):
             'method': 'emit', 'event': 's', 'data': n, 'namespace': '/',
             'room': A['sid'] if n % 2 else None, 'skip_sid': None,
             'callback': None, 'host_id': 'other-host'})))
+    if C is not None:
+        cl.bus.append((0, pickle.dumps({
+            'method': 'emit', 'event': 'q2', 'data': ['x'],
+            'namespace': '/', 'room': C['sid'], 'skip_sid': None,
+            'callback': (C['sid'], '/', 5), 'host_id': 'other-host'})))
     mgr.listen_faults = list(listen_faults)
 
     def on_yield(i):
@@ -390,6 +408,17 @@ def _run(case, cl):
             'sentinel-lost' if len(sent) < n else 'sentinel-reordered')
         raise Violation(kind, 'sentinels %r of 1..%d; listener log %r'
                         % (sent, n, host.logged[-2:]))
+    if C is not None:
+        got_c = [p for p in cl.recv(c3) if p['type'] == wire.EVENT and
+                 p['data'][:1] == ['q2']]
+        if len(got_c) != 1 or got_c[0]['id'] is None:
+            raise Violation('remote-emit-with-callback-lost',
+                            'after an acknowledgement that named a client '
+                            'without outstanding callbacks, the emit with a '
+                            'callback that another host addressed to that '
+                            'client arrived as %r; listener log %r'
+                            % (got_c, host.logged[-2:]))
+        labels['stray_ack_then_remote_callback'] = True
     # ---- echoes / foreign callbacks / callbacks
     own_right = [e[2] for _, _, e in plan if e and e[0] == 'cb' and e[1]]
     b_touched = any(e and (e[0] == 'maybe' or (
